@@ -661,7 +661,9 @@ func c14HTTPCases(m c14Method, full bool) []c14Case {
 	if m.Name == "webdav.RemoveAll" || m.Name == "webdav.Copy" || m.Name == "webdav.Move" {
 		for _, st := range []int{423, 403, 507} {
 			doc := c14Doc([]c14Resp{{Href: "/f/locked-member", Status: st, ErrCond: st == 423}}, false)
-			out = append(out, c14Case{Method: m.Name, Kind: "http", Status: 207, CT: "application/xml; charset=utf-8", Body: doc, BodyID: "member-failure", WantCode: st})
+			for _, ct := range []string{"application/xml; charset=utf-8", "text/xml", `text/xml; charset="utf-8"`, ""} {
+				out = append(out, c14Case{Method: m.Name, Kind: "http", Status: 207, CT: ct, Body: doc, BodyID: "member-failure", WantCode: st})
+			}
 		}
 	}
 	// the DAV and Allow headers on several lines; entity-tag, date and location headers in unusual forms
